@@ -284,8 +284,45 @@ Proof.
   rewrite !(clear_set_other _ gPC) by reflexivity. rewrite py_set_pc_pc. reflexivity.
 Qed.
 
+(* POPU IL: the byte at U goes to the low byte of I and the high byte of I is cleared (the lifter assigns I := byte AND 0xFF) *)
+Theorem popu_IL : stack_is_spec (mk_instr 57 [ORegIL] 1) 57 (fun _ => True).
+Proof.
+  intros addr s Hwf HL _. pose proof (getr_U_range s) as HR.
+  lift_mem.
+  match goal with |- context [run (fuel_for ?p ?s1) ?p 0 ?s1] =>
+    destruct (fuel_split p s1 4) as [j Hj]; [cbn; lia|]; rewrite Hj; set (S1 := s1) end.
+  assert (GU : getr S1 gU = getr s gU) by (subst S1; rewrite !getr_setr_pc by discriminate; reflexivity).
+  assert (L1 : length (y_t (rg S1)) = NTEMP) by (subst S1; rewrite !setr_rg; destruct (rg s); exact HL).
+  set (U0 := getr s gU) in *.
+  replace (4 + j)%nat with (S (S (S (S j)))) by lia.
+  cbn [run nth_error exec_stmt eval_expr]. rewrite GU. cbn [nth_error].
+  set (u1 := setr S1 (gTEMP 1) U0).
+  assert (T1 : getr u1 (gTEMP 1) = U0) by (subst u1; apply getr_setr_T1; [exact L1 | lia]).
+  cbn [exec_stmt eval_expr]. rewrite T1. rewrite load_1 by (intros z; apply Hwf).
+  cbn [eval_binop apply_flags nth_error].
+  replace (Z.land (mem u1 U0) 255) with (mem s U0) by (change (mem u1 U0) with (mem s U0); change 255 with (Z.ones 8); rewrite Z.land_ones by lia; symmetry; apply Z.mod_small; pose proof (Hwf U0); lia).
+  set (u2 := setr (logged u1 [U0]) gI (mem s U0)).
+  assert (T2 : getr u2 (gTEMP 1) = U0) by (subst u2; rewrite getr_temp_setr_o by reflexivity; exact T1).
+  rewrite T2. rewrite band3v. rewrite (Z.mod_small (U0 + Z.of_N 1) 16777216) by (change (Z.of_N 1) with 1; lia).
+  eexists. eexists. split; [reflexivity|]. split; [spec_mem I_POPU; cbn [place_of]; reflexivity|].
+  unfold pop_bytes, pwidth, width_of_place, wr_place. rewrite !getr_setr_pc by discriminate. fold U0.
+  change (Z.of_N 1) with 1. change (Z.to_nat 1) with 1%nat. rewrite le_val_1.
+  subst u2 u1 S1. unfold arch_eqT. split; [|split]; [|intros z; reflexivity|reflexivity].
+  rewrite !setr_rg. unfold logged; cbn [rg]. rewrite !setr_rg.
+  change (mem (setr s gPC (addr + Z.of_nat (i_len (mk_instr 57 [ORegIL] 1)))) U0) with (mem s U0).
+  assert (HM : 0 <= mem s U0 < 256) by (pose proof (Hwf U0); lia).
+  set (V := Z.to_N (mem s U0 mod 4294967296)).
+  assert (HV : (V < 256)%N) by (subst V; rewrite Z.mod_small by lia; lia).
+  assert (EI : forall p, py_set p gI V = py_set p gIL V).
+  { intros p. unfold py_set. destruct p. f_equal. unfold p16, p8. rewrite !N.mod_small by lia. reflexivity. }
+  rewrite EI.
+  rewrite ?(clear_set_other _ gU) by reflexivity. rewrite ?(clear_set_other _ gIL) by reflexivity.
+  rewrite ?(clear_set_other _ gU) by reflexivity. rewrite clear_set_temp. rewrite !(clear_set_other _ gPC) by reflexivity.
+  rewrite py_set_pc_pc. destruct (clear_temps (rg s)); reflexivity.
+Qed.
+
 Lemma stack_opcodes_check2 :
-  map (fun o => (d_cls (entry_of o), d_ops (entry_of o))) [41; 42; 43; 44; 45; 58; 59; 60; 61]%N =
+  map (fun o => (d_cls (entry_of o), d_ops (entry_of o))) [41; 42; 43; 44; 45; 57; 58; 59; 60; 61]%N =
   map (fun r => (I_PUSHU, [r])) [PRegIL; PReg RBA 2; PReg RI 2; PReg RX 3; PReg RY 3] ++
-  map (fun r => (I_POPU, [r])) [PReg RBA 2; PReg RI 2; PReg RX 3; PReg RY 3].
+  map (fun r => (I_POPU, [r])) [PRegIL; PReg RBA 2; PReg RI 2; PReg RX 3; PReg RY 3].
 Proof. vm_compute. reflexivity. Qed.
